@@ -484,8 +484,7 @@ theorem QR.advance_resp (q : QR) : Resp q.advance := by
           | false => exact ⟨hr3, rfl⟩
           | true =>
             simp only [Bool.not_true, Bool.false_eq_true, if_false]
-            generalize parseStreams q.proto ((minQueueSize q.proto streams q.queues).getD 0)
-              streams q.queues = ps
+            generalize parseStreams q.proto streams q.queues = ps
             cases ps with
             | none => exact ⟨hr3, rfl⟩
             | some sq =>
